@@ -86,7 +86,8 @@ def string(value):
         .replace('"', '\\"')
     )
 
-    if value.endswith('\\'):
+    if _ends_with_single_backslash(value):
+        # (an escaped backslash at the end is complete already)
         value = value[:-1] + '\\\\'
 
     return '"%s"' % value
